@@ -198,6 +198,16 @@ def perform(acl: Acl, op: dict):
         if leaf is not None:
             leaf.sequence = op["n"]
         return None
+    if k == "set_ports":
+        leaf = leaf_at(acl, op["i"], op["j"])
+        if isinstance(leaf, Ace):
+            port = leaf.srcport if op["side"] == "src" else leaf.dstport
+            if port.operator == op["operator"]:
+                if op["via"] == "items":
+                    port.items = list(op["items"])
+                else:
+                    port.line = " ".join([op["operator"], *map(str, op["items"])])
+        return None
     if k == "set_note":
         leaf = leaf_at(acl, op["i"], op["j"])
         if leaf is not None:
